@@ -133,7 +133,7 @@ class _Contour:
 
 
 OPS = ["pdf", "cdf", "draw_sample", "marginal_pdf", "marginal_cdf", "marginal_icdf", "iform", "isorm", "hdc",
-       "direct_sampling", "and", "or", "design_conditions", "plot", "save", "ew_pdf", "cond_eval"]
+       "direct_sampling", "and", "or", "design_conditions", "plot", "plot_swap", "save", "ew_pdf", "cond_eval"]
 
 
 HEAVY = ("hdc", "direct_sampling", "and", "or", "design_conditions")
@@ -214,9 +214,10 @@ def h_frame(h):
                     return None
             if op == "design_conditions":
                 return shim.mod("utils").calculate_design_conditions(_Contour(inputs["poly"]), steps=[2.9, 3.4])
-            if op == "plot":
+            if op in ("plot", "plot_swap"):
                 return shim.mod("plotting").plot_2D_contour(_Contour(inputs["poly"]), sample=inputs["s"],
-                                                            design_conditions=inputs["dc"], ax=stubs.RecAxes()) and None
+                                                            design_conditions=inputs["dc"], swap_axis=(op == "plot_swap"),
+                                                            ax=stubs.RecAxes()) and None
             if op == "save":
                 rec = []
                 sv = lambda *a, **k: rec.append((a, k))
@@ -246,9 +247,15 @@ def h_frame(h):
         arr("p1", (2,), 0.1, 0.9)
     if op in ("iform", "isorm"):
         inputs["alpha"] = h.real("alpha", 0.01, 0.4)
-    if op in ("direct_sampling", "and", "or", "plot"):
-        arr("s", (3, 2), 0.2, 5.0)
-    if op in ("design_conditions", "plot", "save"):
+    if op in ("direct_sampling", "and", "or", "plot", "plot_swap"):
+        if h.cfg.get("layout") == "F":
+            # a column-major sample (np.array([hs, tz]).T, DataFrame.to_numpy()): its columns are contiguous, so
+            # numpy routines asked to work in place really modify the caller's data
+            arr("s", (7, 2), 0.2, 5.0)
+            inputs["s"] = np.asfortranarray(inputs["s"])
+        else:
+            arr("s", (3, 2), 0.2, 5.0)
+    if op in ("design_conditions", "plot", "plot_swap", "save"):
         if op == "design_conditions":
             base = np.array([[2.0, 1.0], [4.0, 1.5], [4.5, 4.0], [3.0, 5.0], [1.5, 3.0]])
             a = np.empty(base.shape, dtype=object if h.sym else float)
@@ -257,7 +264,7 @@ def h_frame(h):
             inputs["poly"] = a.view(sym.SymArray) if h.sym else a
         else:
             arr("poly", (4, 2), 0.5, 6.0)
-    if op == "plot":
+    if op in ("plot", "plot_swap"):
         arr("dc", (2, 2), 0.5, 6.0)
     if op == "ew_pdf":
         arr("par", (3,), 0.6, 3.0)
@@ -270,7 +277,7 @@ def h_frame(h):
     h.reach()
     ch = diff(before, after, h if h is real_h else None, "state-and-inputs-unchanged-by-evaluation")
     h.check(not ch, "state-and-inputs-unchanged-by-evaluation", "; ".join(ch[:4]))
-    if op not in ("plot", "save") and r1 is not None:
+    if op not in ("plot", "plot_swap", "save") and r1 is not None:
         r2 = run()
         h.check(not diff(after, snapshot(state)), "state-unchanged-by-second-evaluation")
         a1 = r1 if not isinstance(r1, list) else np.concatenate([np.ravel(npx.deep_strip(x)) for x in r1])
@@ -401,13 +408,16 @@ def obligations(tier):
     for st in (structures(2) + (structures(3)[3:5] if tier == "quick" else structures(3))):
         for rot in rots:
             for op in OPS:
-                if op in ("direct_sampling", "and", "or", "design_conditions", "plot", "save", "ew_pdf") and (len(st) != 2 or rot != rots[0] or st != structures(2)[1]):
+                if op in ("direct_sampling", "and", "or", "design_conditions", "plot", "plot_swap", "save", "ew_pdf") and (len(st) != 2 or rot != rots[0] or st != structures(2)[1]):
                     continue
                 if op == "hdc" and (len(st) > 2 and rot != 0):
                     continue
                 if op == "cond_eval" and st[-1] is None:
                     continue
                 yield ("frame", h_frame, {"struct": skey(st), "rot": rot, "op": op}, {"validate": True, "max_paths": 5000})
+                if op in ("direct_sampling", "and", "or"):
+                    yield ("frame", h_frame, {"struct": skey(st), "rot": rot, "op": op, "layout": "F"},
+                           {"validate": True, "max_paths": 5000})
     for g in GETTERS:
         yield ("getters", h_getters, {"getter": g}, {})
         yield ("fit_isolation", h_fit_isolation, {"getter": g}, {})
